@@ -13,14 +13,16 @@ prefix length k, both stream kinds, eager and lazy, no address translation):
    simulation — if the load of the prefix returns true, the load of the complete image returns true
    with the identical ELF header, identical segments (8 fields, data, member lists; success with
    e_phnum>0 implies the prefix stream never failed, hence no zeroed section), and section by section
-   the header is all-zero or identical and the data pointer null or the same bytes;
+   the header is all-zero or identical, the data pointer null or the same bytes, and (for equal name
+   offsets) the section name empty or the same string;
  * `prefix_load_safe`: memory safety is C01 instantiated.
-Partial (what is NOT a theorem, covered by correspondence + oracle only): section NAMES — a zeroed
-section is named by the string at offset 0 of the name table, which is empty only when the table
-starts with NUL (the single place where well-formedness of the image enters; missing step: carry
-`name = [] or equal` through `namesPure_sim` under the hypothesis strtab[0] = 0) — and the table
-read-outs of the accessor classes (symbols, notes, dynamic, ...: functions of the section data and
-header fields proved equal-or-absent here; their models belong to the accessor families).
+Partial (what is NOT a theorem, covered by correspondence + oracle only): the NAME of a *zeroed*
+section — it is the string at offset 0 of the name table, which is empty only when the table starts
+with NUL (the single place where well-formedness of the image enters; missing step: a hypothesis
+"the name table's first byte is NUL" carried through `namesPure_names` for the `SecRel.zero` case) —
+and the table read-outs of the accessor classes (symbols, notes, dynamic, ...: functions of the
+section data and header fields proved equal-or-absent here; their models belong to the accessor
+families).
 Correspondence + oracle: every prefix (quick: a stratified sample plus all lengths around table
 and data boundaries; thorough: every length) of encoder-built images and small examples, eager and
 lazy; the oracle compares the prefix's observation with the complete file's observation, field by
@@ -36,7 +38,7 @@ THEOREMS = ["ElfioVerif.C17.read_prefix", "ElfioVerif.C17.isolatedRead_prefix",
             "ElfioVerif.C17.exposes_only_file_bytes", "ElfioVerif.C17.exposes_only_file_bytes_requests",
             "ElfioVerif.C17.prefix_load_safe",
             "ElfioVerif.C17.secLoad_sim", "ElfioVerif.C17.segLoad_sim", "ElfioVerif.C17.loadSectionsLoop_sim",
-            "ElfioVerif.C17.namesPure_sim", "ElfioVerif.C17.loadSegmentsLoop_sim",
+            "ElfioVerif.C17.namesPure_sim", "ElfioVerif.C17.namesPure_names", "ElfioVerif.C17.loadSegmentsLoop_sim",
             "ElfioVerif.C17.prefix_sound", "ElfioVerif.C17.prefix_sound_section",
             "ElfioVerif.C17.prefix_sound_segment"]
 SITES = ["conv", "load_s", "sec32_load", "sec64_load", "seg32_load", "seg64_load"]
